@@ -933,7 +933,7 @@ def new_dmrg(cx, bsz, with_me=None, L=None):
                   energies=ListV(), local_energies=ListV(), total_energies=ListV(), phys_dim=cx.Opaque("phys_dim"),
                   _bond_dims=new_iter(cx, lambda k, a=bd_arr: z3.Select(a, k), cx.Int("bd_k"), "bond_dims"),
                   _cutoffs=new_iter(cx, lambda k, a=co_arr: z3.Select(a, k), cx.Int("co_k"), "cutoffs"),
-                  g_vis=cx.Array("g_vis", IntS, IntS), g_nvis=0, g_M=cx.Int("g_M"), g_nsweeps=0,
+                  _bond_dim0=cx.Int("bond_dim0"), g_vis=cx.Array("g_vis", IntS, IntS), g_nvis=0, g_M=cx.Int("g_M"), g_nsweeps=0,
                   g_last=(cx.Opaque("loc_en"), cx.Opaque("tot_en")))
     ref = cx.new_obj("DMRG", **fields)
     cx.ghost["self"] = ref
@@ -1795,6 +1795,10 @@ class Sweep(DContract):
     def apply(self, cx, a, node, case=None):
         line = node.lineno
         f = cx.fields(a.self)
+        if is_z3(a.canonize):  # a constant formula (value of a python-level comparison): back to a python bool
+            c = z3.simplify(a.canonize)
+            if z3.is_true(c) or z3.is_false(c):
+                a.__dict__["canonize"] = z3.is_true(c)
         ok = a.direction in ("R", "L") and isinstance(a.canonize, bool) and a.verbosity == 0
         oblige_structural(cx, f"call-pre@{line}:sweep: direction 'R'|'L', boolean canonize, verbosity 0", "call-pre", ok, line)
         if not ok:
@@ -1868,3 +1872,1039 @@ class SweepRight(SweepDir):
 class SweepLeft(SweepDir):
     target = f"{DMRGC}.sweep_left"
     direction = "L"
+
+
+# ---- solve -------------------------------------------------------------------------------------------------
+
+
+@register
+class Solve(DContract):
+    """DMRG.solve on an open chain:
+    * sweep number t (t = 0, 1, ...) of this call receives max_bond = item k0+t of the bond schedule and cutoff = item c0+t
+      of the cutoff schedule (k0, c0: items consumed before the loop; 0 when the schedule is passed to solve), and DMRG1's
+      expand_bond_dimension receives the same max_bond (call-argument obligations);
+    * canonize = not (direction + previous in {'LR', 'RL'}): a sweep that does not canonize first always follows a sweep in
+      the opposite direction, whose post-condition is the gauge it relies on (call-pre of sweep, from the loop invariant);
+    * with bsz = 2 every bond is <= the last scheduled max_bond afterwards.
+    KNOWN DEFECT (kept failing): max_sweeps = 0 returns a variable that was never bound."""
+
+    target = f"{DMRGC}.solve"
+    floor = 40
+    havoc_sweep_ghosts = True
+
+    def cases(self):
+        out = []
+        for b in (1, 2):
+            for bd in ("None", "int", "sequence"):
+                for sw in ("None", "given"):
+                    for supp in (True, False):
+                        if (bd != "None" or sw != "None") and not supp:
+                            continue
+                        out.append(NS(name=f"bsz={b},bond_dims={bd},sweep_sequence={sw},suppress_warnings={supp}", bsz=b, bd=bd,
+                                      sw=sw, supp=supp))
+        return out
+
+    def inputs(self, cx, case):
+        ref = new_dmrg(cx, case.bsz)
+        bond_dims = cutoffs = None
+        if case.bd == "int":
+            bond_dims, cutoffs = cx.Int("bond_dims"), cx.Real("cutoffs")
+        elif case.bd == "sequence":
+            n, nc = cx.Int("n_bd"), cx.Int("n_co")
+            cx.assume(And(n >= 1, nc >= 1))
+            bond_dims, cutoffs = SeqV(n, cx.Array("bds", IntS, IntS)), SeqV(nc, cx.Array("cos", IntS, z3.RealSort()))
+        max_sweeps = cx.Int("max_sweeps")
+        cx.assume(max_sweeps >= 0)
+        return dict(self=ref, tol=cx.Real("tol"), bond_dims=bond_dims, cutoffs=cutoffs,
+                    sweep_sequence=None if case.sw == "None" else SweepSeqV(), max_sweeps=max_sweeps, verbosity=0,
+                    suppress_warnings=case.supp)
+
+    # ---- loop
+    def snap(self, cx):
+        if "loop_entry" not in cx.ghost:
+            f = cx.fields(cx.ghost["self"])
+            bd, co = f["_bond_dims"], f["_cutoffs"]
+            cx.ghost["loop_entry"] = dict(bd=bd, co=co, bd_k=cx.fields(bd)["k"], co_k=cx.fields(co)["k"], nsw=f["g_nsweeps"])
+        return cx.ghost["loop_entry"]
+
+    def inv(self, v):
+        cx = v.cx
+        g = self.snap(cx)
+        f = cx.fields(v.self)
+        m = cx.fields(f["_k"])
+        t = v._it0
+        prev = v.previous_direction
+        d = {"schedule-iterators-kept": f["_bond_dims"] == g["bd"] and f["_cutoffs"] == g["co"],
+             "bond-schedule-position == k0 + t": Z(cx.fields(g["bd"])["k"]) == Z(g["bd_k"]) + t,
+             "cutoff-schedule-position == c0 + t": Z(cx.fields(g["co"])["k"]) == Z(g["co_k"]) + t,
+             "sweeps-run == t <= max_sweeps": And(f["g_nsweeps"] == g["nsw"] + t, t <= v.max_sweeps),
+             "previous-direction-is-a-marker": prev in ("0", "L", "R"),
+             "no-sweep-yet <=> previous == '0'": (t == 0) if prev == "0" else (t >= 1)}
+        if prev in ("L", "R"):
+            d["gauge: canonical as the previous sweep left it"] = sweep_post_gauge(m, prev)
+            if f["bsz"] == 2:
+                d["every bond <= the max_bond of the previous sweep"] = \
+                    forall_sites(Implies(And(0 <= K, K < f["L"] - 1), sel(m["capd"], K)))
+        return d
+
+    @staticmethod
+    def retype_prev(cx):
+        p = cx.Int("prev")
+        cx.assume(And(0 <= p, p <= 2))
+        if cx.decide(p == 0):
+            return "0"
+        return "R" if cx.decide(p == 1) else "L"
+
+    @property
+    def loops(self):
+        return {0: Loop("for _ in range(max_sweeps)", self.inv,
+                        retype={"previous_direction": self.retype_prev,
+                                "converged": lambda cx: MaybeUnbound(cx.Bool("converged_hv"), "_it0")})}
+
+    def truth_of(self, v):
+        return v
+
+    def call(self, cx, name, args, kwargs, node):
+        line = getattr(node, "lineno", 0)
+        if name in (".sweep", ".expand_bond_dimension") and "loop_entry" in cx.ghost:
+            g = cx.ghost["loop_entry"]
+            t = cx.env.get("_it0")
+            want_mb = cx.fields(g["bd"])["item"](Z(g["bd_k"]) + t)
+            want_co = cx.fields(g["co"])["item"](Z(g["co_k"]) + t)
+            if name == ".sweep":
+                mb, co = kwargs.get("max_bond"), kwargs.get("cutoff")
+                cx.oblige(f"call-arg@{line}:sweep: sweep number t receives max_bond = item k0+t of the bond schedule", "call-arg",
+                          (mb == want_mb) if is_z3(mb) or is_int(mb) else False, line)
+                cx.oblige(f"call-arg@{line}:sweep: sweep number t receives cutoff = item c0+t of the cutoff schedule", "call-arg",
+                          (R(co) == R(want_co)) if is_z3(co) or isinstance(co, (int, float)) else False, line)
+            else:
+                nb = args[1] if len(args) > 1 else kwargs.get("new_bond_dim")
+                cx.oblige(f"call-arg@{line}:expand_bond_dimension: receives the scheduled max_bond of this sweep", "call-arg",
+                          (nb == want_mb) if is_z3(nb) or is_int(nb) else False, line)
+        return super().call(cx, name, args, kwargs, node)
+
+    def ensures(self, a, r, cx, case):
+        f, p = cx.fields(a.self), cx.pre(a.self)
+        m = cx.fields(f["_k"])
+        t = cx.env.get("_it0")
+        d = {}
+        if isinstance(r, MaybeUnbound):
+            d["returned-variable-is-bound (at least one sweep ran)"] = cx.env[r.nbound] >= 1
+            r = r.value
+        d["returns-the-convergence-flag"] = is_z3(r) and z3.is_bool(r)
+        g = cx.ghost.get("loop_entry")
+        d["loop-reached"] = g is not None
+        if g is None:
+            return d
+        if a.bond_dims is not None:
+            d["schedule passed to solve starts at its first item"] = And(Z(g["bd_k"]) == 0, Z(g["co_k"]) == 0)
+            k = KS
+            d["schedule passed to solve: item k is bond_dims[min(k, len-1)]"] = Implies(
+                k >= 0, cx.fields(g["bd"])["item"](k) == SetSeq.spec_item(a.bond_dims, k))
+        else:
+            d["schedule-not-reset"] = g["bd"] == p["_bond_dims"] and g["co"] == p["_cutoffs"]
+        sweeps = f["g_nsweeps"] - g["nsw"]
+        d["schedules advance by the number of sweeps run"] = And(
+            Z(cx.fields(g["bd"])["k"]) == Z(g["bd_k"]) + sweeps, Z(cx.fields(g["co"])["k"]) == Z(g["co_k"]) + sweeps,
+            sweeps <= a.max_sweeps)
+        if case.bsz == 2:
+            d["every bond <= the last scheduled max_bond (bsz = 2)"] = Implies(
+                sweeps >= 1, forall_sites(Implies(And(0 <= K, K < f["L"] - 1), sel(m["capd"], K))))
+        return d
+
+    def replay(self, model):
+        import warnings
+
+        import quimb.tensor as qtn
+
+        warnings.simplefilter("ignore")
+        try:
+            r = qtn.DMRG2(qtn.MPO_ham_heis(4), bond_dims=8).solve(max_sweeps=0)
+            obs = f"returned {r!r}"
+        except Exception as e:  # noqa
+            obs = f"{type(e).__name__}: {e}"
+        return dict(call="DMRG2(MPO_ham_heis(4), bond_dims=8).solve(max_sweeps=0)", observed=obs,
+                    reproduced=obs.startswith("UnboundLocalError"))
+
+
+# ======================================================================================================
+# C09: 1D compression sweeps (tn1d/core.py): bond-cap threading + promised canonical form
+# ======================================================================================================
+
+FLAT = f"{T1}::TensorNetwork1DFlat"
+ABSENT = "<absent>"
+OPT_TRACKED = ("max_bond", "cutoff")
+
+
+def opts_match(kwargs, want):
+    """the options a compress call received are exactly the requested ones (an absent option must be absent)"""
+    out = []
+    for key in OPT_TRACKED:
+        a, b = kwargs.get(key, ABSENT), want.get(key, ABSENT)
+        if a is ABSENT or b is ABSENT:
+            out.append(a is ABSENT and b is ABSENT)
+        elif a is None or b is None:
+            out.append(a is None and b is None)
+        elif is_z3(a) or is_z3(b):
+            x, y = Z(a), Z(b)
+            out.append(R(x) == R(y) if x.sort() != y.sort() else x == y)
+        else:
+            out.append(a == b)
+    return And(*out)
+
+
+def new_cmps(cx, opts, name="mps"):
+    """an open-boundary 1D flat network with mpsghost + ghost ``capd`` (bond (k,k+1) was last compressed by a call that
+    received exactly the requested options ``g_opts``, hence is <= the requested max_bond)"""
+    L = cx.Int("L")
+    ref = cx.new_obj("MPS", L=L, cyclic=False, isL=cx.Array(f"isL_{name}", IntS, BoolS), isR=cx.Array(f"isR_{name}", IntS, BoolS),
+                     capd=cx.Array(f"capd_{name}", IntS, BoolS), g_opts={k: v for k, v in opts.items() if k in OPT_TRACKED})
+    cx.ghost["self"] = ref
+    cx.assume(L >= 1)
+    return ref
+
+
+def compress_opts_of(cx, kind):
+    if kind == "none":
+        return {}
+    d = {"max_bond": cx.Int("max_bond"), "cutoff": cx.Real("cutoff")}
+    if kind == "cap+both":
+        d["absorb"] = "both"
+    return d
+
+
+OPT_KINDS = ("none", "cap", "cap+both")
+
+
+def site_effect(reduced, absorb):
+    """[leaf reading of tensor_compress_bond] which tensor is left isometric afterwards: 'l' (towards the right
+    neighbour), 'r', or None.  reduced='left' decomposes only the left tensor (isometric iff absorb='right'), reduced='right'
+    only the right one (isometric iff absorb='left'), reduced=True / False / 'lazy' follow absorb"""
+    if absorb == "right" and reduced != "right":
+        return "l"
+    if absorb == "left" and reduced != "left":
+        return "r"
+    return None
+
+
+class CContract(c08.MPSContract):
+    property_ids = ("C09",)
+    ghost_fields = ()
+    drops = "decorators, docstrings"
+
+    def havoc_heap(self, cx):
+        for oid, f in cx.heap.items():
+            if "isL" in f:
+                f["isL"], f["isR"] = cx.Array("isL_hv", IntS, BoolS), cx.Array("isR_hv", IntS, BoolS)
+                if "capd" in f:
+                    f["capd"] = cx.Array("capd_hv", IntS, BoolS)
+
+    def call(self, cx, name, args, kwargs, node):
+        line = getattr(node, "lineno", 0)
+        if name == "tensor_compress_bond":
+            return self.leaf_compress_bond(cx, args, kwargs, node)
+        if name.startswith(".") and isinstance(args[0], Ref) and args[0].kind == "MPS" and name[1:] in COMPRESS_METHODS:
+            return cx.call_contract(REGISTRY[COMPRESS_METHODS[name[1:]]], list(args[1:]), kwargs, node, recv=args[0])
+        return super().call(cx, name, args, kwargs, node)
+
+    def leaf_compress_bond(self, cx, args, kwargs, node):
+        """[leaf, C05 + reading of tensor_core.tensor_compress_bond] tensor_compress_bond(tl, tr, absorb, reduced, max_bond,
+        cutoff, ...): the bond between the two tensors is <= max_bond afterwards; the non-absorbing tensor is isometric
+        (see site_effect); no other tensor is touched"""
+        line = node.lineno
+        ok = len(args) == 2 and isinstance(args[0], c08.Site) and isinstance(args[1], c08.Site) and args[0].mps == args[1].mps
+        oblige_structural(cx, f"call-arg@{line}:tensor_compress_bond: two site tensors of this network", "call-arg", ok, line)
+        if not ok:
+            raise Unsupported("tensor_compress_bond call shape")
+        tl, tr = args
+        f = cx.fields(tl.mps)
+        cx.oblige(f"call-pre@{line}:tensor_compress_bond: (left, right) neighbours in this order", "call-pre", tr.i == tl.i + 1, line)
+        absorb, reduced = kwargs.get("absorb", "both"), kwargs.get("reduced", True)
+        if not isinstance(absorb, (str, type(None))) or not isinstance(reduced, (str, bool)):
+            raise Unsupported("symbolic absorb / reduced")
+        eff = site_effect(reduced, absorb)
+        f["isL"] = z3.Store(z3.Store(f["isL"], tl.i, True if eff == "l" else cx.Bool("hv")), tr.i, cx.Bool("hv"))
+        f["isR"] = z3.Store(z3.Store(f["isR"], tl.i, cx.Bool("hv")), tr.i, True if eff == "r" else cx.Bool("hv"))
+        f["capd"] = z3.Store(f["capd"], tl.i, opts_match(kwargs, f["g_opts"]))
+        cx.events.append(("compress_bond", tl.i, dict(kwargs)))
+        return None
+
+
+@register
+class SetDefaultCompressMode(Contract):
+    """set_default_compress_mode(opts, cyclic): only ever ADDS the key cutoff_mode"""
+
+    target = f"{T1}::set_default_compress_mode"
+    property_ids = ("C09",)
+    floor = 2
+
+    def cases(self):
+        return [NS(name=f"opts={k},mode={m}", kind=k, mode=m) for k in OPT_KINDS for m in ("absent", "given")]
+
+    def inputs(self, cx, case):
+        opts = compress_opts_of(cx, case.kind)
+        if case.mode == "given":
+            opts["cutoff_mode"] = cx.Opaque("cutoff_mode")
+        cx.ghost["before"] = dict(opts)
+        return dict(opts=opts, cyclic=False)
+
+    def ensures(self, a, r, cx, case):
+        before = cx.ghost["before"]
+        d = {"returns-None": r is None,
+             "every-caller-option-untouched": all(k in a.opts and a.opts[k] is v for k, v in before.items()),
+             "only-cutoff_mode-added": set(a.opts) == set(before) | {"cutoff_mode"}}
+        if "cutoff_mode" not in before:
+            d["open-boundary-default"] = a.opts.get("cutoff_mode") == "rsum2"
+        return d
+
+    def apply(self, cx, a, node, case=None):
+        if not isinstance(a.opts, dict) or a.cyclic is not False:
+            raise Unsupported("set_default_compress_mode call shape")
+        a.opts.setdefault("cutoff_mode", "rsum2")
+        return None
+
+
+class CompressSite(CContract):
+    """left_/right_compress_site(i, **opts): exactly one tensor_compress_bond on the bond next to i, which receives the
+    caller's options unchanged (max_bond, cutoff; defaults only ADDED: absorb, reduced, cutoff_mode); by default site i
+    becomes isometric towards the absorbing neighbour; nothing else is touched"""
+
+    floor = 10
+    side = None  # "left": bond (i, i+1), site i left isometric;  "right": bond (i-1, i), site i right isometric
+
+    def cases(self):
+        return [NS(name=f"opts={k}", kind=k) for k in OPT_KINDS]
+
+    def bond(self, i):
+        return i if self.side == "left" else i - 1
+
+    def inputs(self, cx, case):
+        opts = compress_opts_of(cx, case.kind)
+        ref = new_cmps(cx, opts)
+        i = cx.Int("i")
+        cx.assume(self.in_range(cx.fields(ref)["L"], i))
+        return dict(self=ref, i=i, bra=None, create_bond=False, compress_opts=opts)
+
+    def in_range(self, L, i):
+        return And(0 <= self.bond(i), self.bond(i) + 1 < L)
+
+    def requires(self, a, case):
+        return {"bra-none": a.get("bra") is None}
+
+    def case_of_call(self, cx, a):
+        return NS(name="call", kind="call")
+
+    def modifies(self, a, case):
+        return [(a.self, ["isL", "isR", "capd"])]
+
+    def fresh_result(self, cx, a, case):
+        return None
+
+    def apply(self, cx, a, node, case=None):
+        nm = self.target.split(".")[-1]
+        L = cx.fields(a.self)["L"]
+        cx.oblige(f"call-pre@{node.lineno}:{nm}: the bond next to site i exists", "call-pre", self.in_range(L, a.i), node.lineno)
+        absorb = a.compress_opts.get("absorb")
+        if not isinstance(absorb, (str, type(None))):
+            raise Unsupported("symbolic absorb")
+        return super().apply(cx, a, node, case)
+
+    def ensures(self, a, r, cx, case):
+        f, p = cx.fields(a.self), cx.pre(a.self)
+        i, b = a.i, self.bond(a.i)
+        # (the body adds its defaults to the caller's dict in place: the specification reads the ENTRY snapshot)
+        opts = cx.ghost["opts0"] if cx.contract is self else a.compress_opts
+        absorb = opts.get("absorb", "right" if self.side == "left" else "left")
+        reduced = opts.get("reduced", self.side)
+        eff = site_effect(reduced, absorb)
+        d = {"returns-None": r is None}
+        if self.side == "left" and eff == "l":
+            d["site-i-left-isometric"] = sel(f["isL"], i)
+        if self.side == "right" and eff == "r":
+            d["site-i-right-isometric"] = sel(f["isR"], i)
+        d["frame: only the two sites of the bond touched"] = gauge_unchanged_where(f, p, lambda k: And(k != b, k != b + 1))
+        d["frame: only this bond resized"] = capd_unchanged_except(f, p, b)
+        d["bond compressed with exactly the caller's max_bond / cutoff"] = sel(f["capd"], b) == opts_match(opts, f["g_opts"])
+        if cx.contract is self:
+            ev = [e for e in cx.events if e[0] == "compress_bond"]
+            d["exactly-one-compress-call"] = len(ev) == 1
+            if len(ev) == 1:
+                kw = ev[0][2]
+                d["compress-call-receives-every-caller-option-unchanged"] = all(k in kw and kw[k] is v for k, v in cx.ghost["opts0"].items())
+                d["create_bond-handed-on"] = kw.get("create_bond") is a.create_bond
+        return d
+
+
+def _site_inputs(self, cx, case):
+    d = CompressSite.inputs(self, cx, case)
+    cx.ghost["opts0"] = dict(d["compress_opts"])
+    return d
+
+
+@register
+class LeftCompressSite(CompressSite):
+    target = f"{FLAT}.left_compress_site"
+    side = "left"
+    inputs = _site_inputs
+
+
+@register
+class RightCompressSite(CompressSite):
+    target = f"{FLAT}.right_compress_site"
+    side = "right"
+    inputs = _site_inputs
+
+
+class CompressSweep(CContract):
+    """left_compress / right_compress(start, stop, **opts): every bond of the swept range is compressed by a call that
+    receives the caller's max_bond / cutoff unchanged (loop invariant over the swept prefix); with the default absorb the
+    swept sites become left / right isometries; nothing outside the range is touched"""
+
+    floor = 12
+    side = None
+
+    def cases(self):
+        return [NS(name=f"start={s},stop={e},opts={k}", sk=s, ek=e, kind=k)
+                for s in ("None", "int") for e in ("None", "int") for k in OPT_KINDS]
+
+    def bounds(self, L, a):
+        if self.side == "left":
+            return (0 if a.start is None else a.start), (L - 1 if a.stop is None else a.stop)
+        return (L - 1 if a.start is None else a.start), (0 if a.stop is None else a.stop)
+
+    def range_ok(self, L, a):
+        s, e = self.bounds(L, a)
+        return And(0 <= s, e <= L - 1) if self.side == "left" else And(s <= L - 1, 0 <= e)
+
+    def inputs(self, cx, case):
+        opts = compress_opts_of(cx, case.kind)
+        ref = new_cmps(cx, opts)
+        a = NS(dict(self=ref, start=None if case.sk == "None" else cx.Int("start"),
+                    stop=None if case.ek == "None" else cx.Int("stop"), bra=None, create_bond=False, compress_opts=opts))
+        cx.assume(self.range_ok(cx.fields(ref)["L"], a))
+        return a
+
+    def requires(self, a, case):
+        return {"bra-none": a.get("bra") is None}
+
+    def case_of_call(self, cx, a):
+        return NS(name="call", kind="call")
+
+    def modifies(self, a, case):
+        return [(a.self, ["isL", "isR", "capd"])]
+
+    def fresh_result(self, cx, a, case):
+        return None
+
+    def apply(self, cx, a, node, case=None):
+        nm = self.target.split(".")[-1]
+        L = cx.fields(a.self)["L"]
+        cx.oblige(f"call-pre@{node.lineno}:{nm}: swept range inside the chain", "call-pre", self.range_ok(L, a), node.lineno)
+        oblige_structural(cx, f"call-pre@{node.lineno}:{nm}: bra is None", "call-pre", a.get("bra") is None, node.lineno)
+        # the abstract effect stated by `ensures` (proved for the body), written as array definitions (lambda terms)
+        # instead of quantified assumptions: callers' obligations stay decidable (models for failed ones)
+        f = cx.fields(a.self)
+        s, e = self.bounds(L, a)
+        absorb = a.compress_opts.get("absorb", "right" if self.side == "left" else "left")
+        reduced = a.compress_opts.get("reduced", self.side)
+        if not isinstance(absorb, (str, type(None))) or not isinstance(reduced, (str, bool)):
+            raise Unsupported("symbolic absorb / reduced")
+        eff = site_effect(reduced, absorb)
+        match = Z(opts_match(a.compress_opts, f["g_opts"]))
+        hvL, hvR = cx.Array("isL_cs", IntS, BoolS), cx.Array("isR_cs", IntS, BoolS)
+        if self.side == "left":
+            end = Max(e, s)
+            done, outside = And(s <= K, K < end), Or(K < s, K > end, end <= s)
+            bond_done = done
+            newL = If(outside, sel(f["isL"], K), If(done, True, sel(hvL, K)) if eff == "l" else sel(hvL, K))
+            newR = If(outside, sel(f["isR"], K), sel(hvR, K))
+        else:
+            end = Min(e, s)
+            done, outside = And(end < K, K <= s), Or(K > s, K < end, end >= s)
+            bond_done = And(end <= K, K < s)
+            newL = If(outside, sel(f["isL"], K), sel(hvL, K))
+            newR = If(outside, sel(f["isR"], K), If(done, True, sel(hvR, K)) if eff == "r" else sel(hvR, K))
+        newC = If(bond_done, match, sel(f["capd"], K))
+        f["isL"], f["isR"], f["capd"] = z3.Lambda([K], newL), z3.Lambda([K], newR), z3.Lambda([K], newC)
+        return None
+
+    def swept(self, a, lo, hi):
+        """facts about the swept sites / bonds for lo <= K < hi (left) resp. lo < K <= hi (right)"""
+
+    def post(self, cx, a, f, p, upto):
+        """state after the sweep has reached `upto` (the next site the loop would treat)"""
+        L = p["L"]
+        s, e = self.bounds(L, a)
+        absorb = a.compress_opts.get("absorb", "right" if self.side == "left" else "left")
+        reduced = a.compress_opts.get("reduced", self.side)
+        eff = site_effect(reduced, absorb)
+        match = opts_match(a.compress_opts, f["g_opts"])
+        d = {}
+        if self.side == "left":
+            done = And(s <= K, K < upto)
+            if eff == "l":
+                d["swept-sites-left-isometric"] = forall_sites(Implies(done, sel(f["isL"], K)))
+            d["swept-bonds compressed with exactly the caller's max_bond / cutoff"] = \
+                forall_sites(Implies(done, sel(f["capd"], K) == match))
+            d["frame: sites outside the swept range untouched"] = gauge_unchanged_where(f, p, lambda k: Or(k < s, k > upto, upto <= s))
+            d["frame: bonds outside the swept range untouched"] = \
+                forall_sites(Implies(Or(K < s, K >= upto), sel(f["capd"], K) == sel(p["capd"], K)))
+        else:
+            done = And(upto < K, K <= s)
+            if eff == "r":
+                d["swept-sites-right-isometric"] = forall_sites(Implies(done, sel(f["isR"], K)))
+            # (bond K = (K, K+1) is the one next to the swept site K+1)
+            d["swept-bonds compressed with exactly the caller's max_bond / cutoff"] = \
+                forall_sites(Implies(And(upto <= K, K < s), sel(f["capd"], K) == match))
+            d["frame: sites outside the swept range untouched"] = gauge_unchanged_where(f, p, lambda k: Or(k > s, k < upto, upto >= s))
+            d["frame: bonds outside the swept range untouched"] = \
+                forall_sites(Implies(Or(K >= s, K < upto), sel(f["capd"], K) == sel(p["capd"], K)))
+        return d
+
+    def ensures(self, a, r, cx, case):
+        f, p = cx.fields(a.self), cx.pre(a.self)
+        s, e = self.bounds(p["L"], a)
+        end = Max(e, s) if self.side == "left" else Min(e, s)
+        d = {"returns-None": r is None}
+        d.update(self.post(cx, a, f, p, end))
+        return d
+
+    def inv(self, v):
+        cx = v.cx
+        o = v.old
+        f, p = cx.fields(o.self), cx.old_heap[o.self.oid]
+        s, e = self.bounds(p["L"], o)
+        d = {"i-range": And(s <= v.i, Or(v.i <= e, v.i == s)) if self.side == "left" else And(v.i <= s, Or(v.i >= e, v.i == s))}
+        d.update(self.post(cx, o, f, p, v.i))
+        return d
+
+    @property
+    def loops(self):
+        return {0: Loop("for i in range(start, stop)" if self.side == "left" else "for i in range(start, stop, -1)", self.inv)}
+
+
+@register
+class LeftCompress(CompressSweep):
+    target = f"{FLAT}.left_compress"
+    side = "left"
+
+
+@register
+class RightCompress(CompressSweep):
+    target = f"{FLAT}.right_compress"
+    side = "right"
+
+
+@register
+class Compress(CContract):
+    """compress(form, **opts): EVERY bond (k, k+1), 0 <= k < L-1, is compressed by a call that receives the caller's
+    max_bond / cutoff unchanged (hence max_bond() <= cap), and the promised canonical form holds afterwards: 'right' /
+    None: every site but 0 right-isometric; 'left': every site but L-1 left-isometric; int c: centre at c; 'flat': no
+    isometry claim (absorb='both' from both ends, meeting at L // 2)"""
+
+    target = f"{FLAT}.compress"
+    floor = 12
+    raises = {"ValueError": lambda a: not (a.form is None or is_int(a.form) or (isinstance(a.form, str) and
+                                                                                  a.form in ("left", "right", "flat")))}
+
+    def cases(self):
+        return [NS(name=f"form={fm},opts={k}", form=fm, kind=k) for fm in ("None", "left", "right", "flat", "int", "other")
+                for k in ("none", "cap")]
+
+    def inputs(self, cx, case):
+        opts = compress_opts_of(cx, case.kind)
+        ref = new_cmps(cx, opts)
+        form = {"None": None, "int": cx.Int("form"), "other": "centre"}.get(case.form, case.form)
+        if case.form == "int":
+            cx.assume(And(0 <= form, form < cx.fields(ref)["L"]))
+        return dict(self=ref, form=form, create_bond=False, compress_opts=opts)
+
+    def call(self, cx, name, args, kwargs, node):
+        if name in (".left_canonize", ".right_canonize") and isinstance(args[0], Ref):
+            cx.events.append(("canonize", name[1:], dict(kwargs)))
+        return super().call(cx, name, args, kwargs, node)
+
+    def ensures(self, a, r, cx, case):
+        f, p = cx.fields(a.self), cx.pre(a.self)
+        L = p["L"]
+        form = "right" if a.form is None else a.form
+        d = {"returns-None": r is None}
+        if not (is_int(form) or form in ("left", "right", "flat")):
+            return {"must-raise-ValueError-for-an-unknown-form": False}
+        d["every bond compressed with exactly the caller's max_bond / cutoff (max_bond() <= cap)"] = \
+            forall_sites(Implies(And(0 <= K, K < L - 1), sel(f["capd"], K)))
+        if is_int(form):
+            d["mixed-canonical with centre at form"] = And(
+                forall_sites(Implies(And(0 <= K, K < form), sel(f["isL"], K))),
+                forall_sites(Implies(And(form < K, K < L), sel(f["isR"], K))))
+        elif form == "right":
+            d["right-canonical: every site but 0 right-isometric"] = forall_sites(Implies(And(0 < K, K < L), sel(f["isR"], K)))
+        elif form == "left":
+            d["left-canonical: every site but L-1 left-isometric"] = forall_sites(Implies(And(0 <= K, K < L - 1), sel(f["isL"], K)))
+        return d
+
+
+COMPRESS_METHODS = {"left_compress_site": LeftCompressSite.target, "right_compress_site": RightCompressSite.target,
+                    "left_compress": LeftCompress.target, "right_compress": RightCompress.target}
+
+
+# ======================================================================================================
+# C12: 2D boundary contraction -- interleaved boundary bookkeeping, option threading (tn2d/core.py)
+# ======================================================================================================
+
+TN2 = f"{T2}::TensorNetwork2D"
+DIRS2 = ("xmin", "xmax", "ymin", "ymax")
+# the operations of the handler on the working network; each is DECLARED value preserving (exact when untruncated):
+#   from: contract_boundary_from_ (one boundary row / column contracted into its neighbour, then compressed),
+#   equalize: equalize_norms_ (redistributes norms / the stored exponent), contract: the final exact contraction
+VALUE_PRESERVING_OPS = ("from", "equalize", "contract")
+
+
+class DirList:
+    """a python list of boundary directions whose content is abstracted: only its length n is tracked; every element is
+    one of xmin / xmax / ymin / ymax"""
+
+    def __init__(self, n):
+        self.n = n
+
+    @property
+    def truth(self):
+        return self.n > 0
+
+
+class DirSpec:
+    """a user-given sequence specification (parsed by parse_boundary_sequence)"""
+
+
+class AroundV:
+    """a non-empty collection of (x, y) coordinates"""
+
+
+class AroundProj:
+    def __init__(self, axis):
+        self.axis = axis
+
+
+def same_value(a, b):
+    """identity of two option values (opaque values: equality of their constants)"""
+    if isinstance(a, Opaque) and isinstance(b, Opaque):
+        return a.z == b.z
+    if is_z3(a) and is_z3(b) and a.sort() == b.sort():
+        return a == b
+    if (is_z3(a) or isinstance(a, (int, float))) and (is_z3(b) or isinstance(b, (int, float))) and \
+            not isinstance(a, bool) and not isinstance(b, bool):
+        return R(a) == R(b)
+    return a is b
+
+
+def seqlen(s):
+    return s.n if isinstance(s, DirList) else len(s)
+
+
+def new_tn2d(cx, name="tn"):
+    ref = cx.new_obj("TN2D", Lx=cx.Int("Lx"), Ly=cx.Int("Ly"), g_ext={d: cx.Int(f"g_{d}_{name}") for d in DIRS2}, g_ext_set=False)
+    cx.ghost["self"] = ref
+    f = cx.fields(ref)
+    cx.assume(And(f["Lx"] >= 1, f["Ly"] >= 1))
+    return ref
+
+
+class T2Contract(Contract):
+    property_ids = ("C12",)
+    drops = "decorators, docstrings, ascii-art comments"
+
+    def on_fstring(self, cx, n):
+        """f"{d}max" with concrete parts is the concrete python string (dict keys of the bookkeeping)"""
+        out = []
+        for part in n.values:
+            if isinstance(part, ast.Constant) and isinstance(part.value, str):
+                out.append(part.value)
+            elif isinstance(part, ast.FormattedValue) and part.format_spec is None and part.conversion == -1:
+                v = cx.ev(part.value)
+                if not isinstance(v, (str, int)) or isinstance(v, bool):
+                    return NotImplemented
+                out.append(str(v))
+            else:
+                return NotImplemented
+        return "".join(out)
+
+    def attr(self, cx, base, attr, node):
+        if base is None and attr == "all":
+            return ALL
+        if isinstance(base, Ref) and base.kind == "TN2D" and attr in ("Lx", "Ly"):
+            return cx.fields(base)[attr]
+        return NotImplemented
+
+    def call(self, cx, name, args, kwargs, node):
+        if name == "__getitem__" and isinstance(args[0], str) and isinstance(args[1], int):
+            if not -len(args[0]) <= args[1] < len(args[0]):
+                raise PyRaise("IndexError", getattr(node, "lineno", 0))
+            return args[0][args[1]]
+        if name == "ensure_dict" and len(args) == 1:
+            return {} if args[0] is None else dict(args[0])  # [leaf, utils.ensure_dict] {} for None, else a dict copy
+        if name == "__binop__" and args[0] == "Add" and all(isinstance(x, (int, bool)) or (is_z3(x) and (z3.is_bool(x) or z3.is_int(x)))
+                                                              for x in args[1:]):
+            return I(args[1]) + I(args[2])  # True + True == 2
+        if name == ".copy" and isinstance(args[0], Ref) and args[0].kind == "TN2D" and len(args) == 1:
+            f = cx.fields(args[0])
+            return cx.new_obj("TN2D", Lx=f["Lx"], Ly=f["Ly"], g_ext=dict(f["g_ext"]), g_ext_set=f["g_ext_set"], copy_of=args[0])
+        if name in (".is_cyclic_x", ".is_cyclic_y") and isinstance(args[0], Ref):
+            return cx.Bool(name[1:])
+        return NotImplemented
+
+
+@register
+class InterleavedSequence(T2Contract):
+    """_contract_interleaved_boundary_sequence: the dict bookkeeping IS the extent of the working network (ghost extent
+    advanced by the leaf contract_boundary_from_): separations[d] == boundaries[dmax] - boundaries[dmin]; every range
+    handed on is the current boundary row / column and its inner neighbour, inside the current extent, spanning the full
+    current extent of the other dimension; opposing boundaries never get closer than max_separation; the loop terminates;
+    every operation is applied to the working network (the receiver iff inplace) and is one of the declared value
+    preserving ones; contract_boundary_opts (max_bond, cutoff, ...) reach every contract_boundary_from_ call unchanged."""
+
+    target = f"{TN2}._contract_interleaved_boundary_sequence"
+    floor = 60
+
+    def cases(self):
+        out = []
+
+        def add(ip, ar, sq, bd, eq="auto", strip=False, final=True):
+            out.append(NS(name=f"inplace={ip},around={ar},sequence={sq},borders={bd},equalize_norms={eq},strip_exponent={strip},"
+                          f"final_contract={final}", inplace=ip, around=ar, sequence=sq, borders=bd, eq=eq, strip=strip, final=final))
+
+        for ip in (True, False):
+            for ar in ("None", "given"):
+                for sq in ("None", "given"):
+                    for bd in ("auto", "given"):
+                        add(ip, ar, sq, bd)
+        add(False, "None", "given", "auto", "auto", True, True)
+        add(False, "None", "given", "auto", True, False, False)
+        add(True, "None", "given", "auto", False, True, True)
+        return out
+
+    def inputs(self, cx, case):
+        ref = new_tn2d(cx)
+        opts = {"max_bond": cx.Int("max_bond"), "cutoff": cx.Real("cutoff"), "mode": cx.Opaque("mode"),
+                "canonize": cx.Bool("canonize"), "layer_tags": cx.Opaque("layer_tags"), "compress_opts": cx.Opaque("compress_opts")}
+        cx.ghost["opts0"] = dict(opts)
+        b = {d: (cx.Int(d) if case.borders == "given" else None) for d in DIRS2}
+        if case.borders == "given":
+            cx.assume(And(b["xmin"] <= b["xmax"], b["ymin"] <= b["ymax"]))
+        ms = cx.Int("max_separation")
+        cx.assume(ms >= 0)
+        return dict(self=ref, contract_boundary_opts=opts, sequence=None if case.sequence == "None" else DirSpec(),
+                    xmin=b["xmin"], xmax=b["xmax"], ymin=b["ymin"], ymax=b["ymax"], max_separation=ms,
+                    max_unfinished=cx.Int("max_unfinished"), around=None if case.around == "None" else AroundV(),
+                    strip_exponent=case.strip, equalize_norms=case.eq, final_contract=case.final,
+                    final_contract_opts=None, optimize="auto-hq", progbar=False, inplace=case.inplace)
+
+    # ---- hooks
+    def on_listcomp(self, cx, n):
+        """[d for d in sequence if not _is_finished(d)] over a tuple of directions: an arbitrary SUB-LIST (content abstract,
+        only the length is tracked); the 2**len outcomes of the filter are irrelevant for every obligation and the closure
+        _is_finished is executed for real at every iteration of the loop"""
+        if len(n.generators) == 1 and n.generators[0].ifs and isinstance(n.elt, ast.Name) and \
+                isinstance(n.generators[0].target, ast.Name) and n.elt.id == n.generators[0].target.id:
+            it = cx.ev(n.generators[0].iter)
+            if isinstance(it, (tuple, list)) and all(isinstance(x, str) and x in DIRS2 for x in it):
+                it = DirList(len(it))
+            if isinstance(it, DirList):
+                k = cx.Int("n_kept")
+                cx.assume(And(0 <= k, k <= it.n))
+                return DirList(k)
+        return NotImplemented
+
+    def call(self, cx, name, args, kwargs, node):
+        line = getattr(node, "lineno", 0)
+        if name == ".get_ranges_present" and isinstance(args[0], Ref):
+            # [leaf] ((xmin, xmax), (ymin, ymax)) of the coordinates present: non-empty ranges
+            x0, x1, y0, y1 = cx.Int("auto_xmin"), cx.Int("auto_xmax"), cx.Int("auto_ymin"), cx.Int("auto_ymax")
+            cx.assume(And(x0 <= x1, y0 <= y1))
+            return ((x0, x1), (y0, y1))
+        if name == "parse_boundary_sequence":
+            # [leaf] a tuple of strings from {xmin, xmax, ymin, ymax}, of any length (repeats allowed)
+            n = cx.Int("n_seq")
+            cx.assume(n >= 0)
+            return DirList(n)
+        if name == "__genexp__":
+            n = args[0]
+            it = cx.ev(n.generators[0].iter)
+            if isinstance(it, DirList) and isinstance(n, ast.ListComp):
+                # [d for d in sequence if not _is_finished(d)]: a sub-list (content abstract)
+                k = cx.Int("n_kept")
+                cx.assume(And(0 <= k, k <= it.n))
+                return DirList(k)
+            if isinstance(it, AroundV) and isinstance(n.elt, ast.Subscript) and isinstance(n.elt.slice, ast.Constant):
+                return AroundProj(n.elt.slice.value)
+            return NotImplemented
+        if name in ("min", "max") and len(args) == 1 and isinstance(args[0], AroundProj):
+            t = cx.ghost.setdefault("target", {})
+            ax = args[0].axis
+            if ax not in t:
+                lo, hi = cx.Int(f"target_{'xy'[ax]}min"), cx.Int(f"target_{'xy'[ax]}max")
+                cx.assume(lo <= hi)
+                t[ax] = (lo, hi)
+            return t[ax][0 if name == "min" else 1]
+        if name == "_is_finished":
+            return cx.call_closure(cx.env["_is_finished"], args, kwargs)
+        if name == ".pop" and isinstance(args[0], DirList):
+            s = args[0]
+            oblige_structural(cx, f"pop@{line}: pops the head of the queue", "call-arg", len(args) == 2 and args[1] == 0, line)
+            cx.oblige(f"pop@{line}: the queue is not empty", "index", s.n > 0, line)
+            s.n = s.n - 1
+            c = cx.Int("dir")
+            cx.assume(And(0 <= c, c <= 3))
+            for j in range(3):
+                if cx.decide(c == j, line):
+                    return DIRS2[j]
+            return DIRS2[3]
+        if name == ".append" and isinstance(args[0], DirList):
+            oblige_structural(cx, f"append@{line}: a direction is queued", "call-arg", args[1] in DIRS2, line)
+            args[0].n = args[0].n + 1
+            return None
+        if name == ".contract_boundary_from_" and isinstance(args[0], Ref):
+            return self.leaf_from(cx, args[0], args[1:], kwargs, node)
+        if name == ".equalize_norms_" and isinstance(args[0], Ref):
+            cx.events.append(("equalize", args[0]))
+            return None
+        if name == ".contract" and isinstance(args[0], Ref) and args[0].kind == "TN2D":
+            cx.events.append(("contract", args[0], dict(kwargs), list(args[1:])))
+            return cx.Opaque("value")
+        return super().call(cx, name, args, kwargs, node)
+
+    def extent(self, cx, tn):
+        """ghost extent of the working network; initialised from the starting borders when the loop is reached"""
+        return cx.fields(tn)["g_ext"]
+
+    def leaf_from(self, cx, tn, args, kwargs, node):
+        """[leaf] tn.contract_boundary_from_(xrange, yrange, from_which=d, ...): contracts the boundary row / column d of the
+        current extent into its inner neighbour: the extent shrinks by one on side d"""
+        line = node.lineno
+        g = self.extent(cx, tn)
+        d = kwargs.get("from_which")
+        xr, yr = kwargs.get("xrange"), kwargs.get("yrange")
+        ok = (not args) and d in DIRS2 and isinstance(xr, tuple) and len(xr) == 2 and isinstance(yr, tuple) and len(yr) == 2
+        oblige_structural(cx, f"from@{line}: xrange, yrange pairs and a direction, by keyword", "call-arg", ok, line)
+        if not ok:
+            raise Unsupported("contract_boundary_from_ call shape")
+        own, other = (xr, yr) if d[0] == "x" else (yr, xr)
+        a, o = d[0], "y" if d[0] == "x" else "x"
+        lo, hi = g[a + "min"], g[a + "max"]
+        if d[1:] == "min":
+            adj = And(own[0] == lo, own[1] == lo + 1, lo + 1 <= hi)
+        else:
+            adj = And(own[0] == hi - 1, own[1] == hi, hi - 1 >= lo)
+        cx.oblige(f"from@{line}: the range is the current boundary row / column and its inner neighbour, inside the current extent",
+                  "call-pre", adj, line)
+        cx.oblige(f"from@{line}: the other range spans exactly the current extent", "call-pre",
+                  And(other[0] == g[o + "min"], other[1] == g[o + "max"]), line)
+        opts0 = cx.ghost["opts0"]
+        cx.oblige(f"from@{line}: contract_boundary_opts (max_bond, cutoff, mode, ...) handed on unchanged", "call-arg",
+                  And(*[same_value(kwargs.get(k, ABSENT), v) for k, v in opts0.items()]), line)
+        cx.events.append(("from", tn, d, kwargs.get("equalize_norms")))
+        g[d] = g[d] + 1 if d[1:] == "min" else g[d] - 1
+        return tn
+
+    # ---- loop
+    def snap(self, cx, v):
+        if "entry" not in cx.ghost:
+            # ghost initialisation: the extent of the working network at loop entry is the starting borders
+            g = cx.fields(v.tn)["g_ext"]
+            for d in DIRS2:
+                g[d] = v.boundaries[d]
+            cx.ghost["entry"] = dict(b=dict(v.boundaries), sep=dict(v.separations), n=seqlen(v.sequence))
+        return cx.ghost["entry"]
+
+    def inv(self, v):
+        cx = v.cx
+        e = self.snap(cx, v)
+        b, sep, ms = v.boundaries, v.separations, v.max_separation
+        g = cx.fields(v.tn)["g_ext"]
+        return {
+            "separations[d] == boundaries[dmax] - boundaries[dmin]":
+                And(sep["x"] == b["xmax"] - b["xmin"], sep["y"] == b["ymax"] - b["ymin"]),
+            "boundaries == the extent of the working network": And(*[b[d] == g[d] for d in DIRS2]),
+            "boundaries only move inwards": And(b["xmin"] >= e["b"]["xmin"], b["xmax"] <= e["b"]["xmax"],
+                                                b["ymin"] >= e["b"]["ymin"], b["ymax"] <= e["b"]["ymax"]),
+            "opposing boundaries never closer than min(start, max_separation)":
+                And(sep["x"] >= Min(e["sep"]["x"], ms), sep["y"] >= Min(e["sep"]["y"], ms)),
+            "queue-length >= 0": seqlen(v.sequence) >= 0,
+            "options-dict-not-modified": And(set(v.contract_boundary_opts) == set(cx.ghost["opts0"]),
+                                             *[same_value(v.contract_boundary_opts.get(k, ABSENT), x)
+                                               for k, x in cx.ghost["opts0"].items()]),
+            "working-network-kept": v.tn == cx.ghost.setdefault("tn0", v.tn),
+        }
+
+    @staticmethod
+    def measure(v):
+        sep, ms = v.separations, v.max_separation
+        return If(sep["x"] > ms, sep["x"] - ms, 0) + If(sep["y"] > ms, sep["y"] - ms, 0) + seqlen(v.sequence)
+
+    def havoc_heap(self, cx):
+        for oid, f in cx.heap.items():
+            if "g_ext" in f:
+                for d in DIRS2:
+                    f["g_ext"][d] = cx.Int(f"g_{d}_hv")
+
+    @property
+    def loops(self):
+        def fresh_list(cx):
+            n = cx.Int("n_queue")
+            return DirList(n)
+
+        return {0: Loop("while sequence", self.inv, decreases=self.measure, extra_modifies=("sequence",),
+                        retype={"sequence": fresh_list})}
+
+    def ensures(self, a, r, cx, case):
+        f = cx.fields(a.self)
+        ev = cx.events
+        tn = cx.env.get("tn")
+        d = {"working-network-is-the-receiver-iff-inplace": isinstance(tn, Ref) and (tn == a.self) == bool(a.inplace)}
+        if not isinstance(tn, Ref):
+            return d
+        d["every-operation-on-the-working-network"] = all(e[1] == tn for e in ev)
+        d["every-operation-declared-value-preserving"] = all(e[0] in VALUE_PRESERVING_OPS for e in ev)
+        if not a.inplace:
+            d["receiver-untouched-when-not-inplace"] = all(e[1] != a.self for e in ev) and "copy_of" in cx.fields(tn)
+        eqs = [e for e in ev if e[0] == "equalize"]
+        d["norms-equalized-at-the-end-iff-equalize_norms-is-True"] = len(eqs) == (1 if a.equalize_norms is True else 0)
+        # the equalize_norms value handed to every boundary contraction: 'auto' -> 1.0 with strip_exponent, else False
+        froms = [e for e in ev if e[0] == "from"]
+        if a.equalize_norms == "auto" and not isinstance(a.equalize_norms, bool):
+            want = 1.0 if a.strip_exponent else False
+            d["equalize_norms='auto' resolved to 1.0 iff strip_exponent (else False)"] = \
+                all(type(e[3]) is type(want) and e[3] == want for e in froms)
+        else:
+            d["equalize_norms handed on"] = all(e[3] is a.equalize_norms for e in froms)
+        cons = [e for e in ev if e[0] == "contract"]
+        final = bool(a.final_contract) and a.around is None
+        if isinstance(r, Ref):
+            d["returns-the-working-network-unless-final-contract"] = (r == tn) and not final
+            d["no-final-contraction"] = len(cons) == 0
+        else:
+            d["final-contraction-only-without-target-region"] = final
+            d["exactly-one-final-contraction, last"] = len(cons) == 1 and ev[-1][0] == "contract"
+            if len(cons) == 1:
+                kw = cons[0][2]
+                d["final-contract-defaults: optimize, inplace, strip_exponent"] = \
+                    kw.get("optimize") == a.optimize and kw.get("inplace") is a.inplace and kw.get("strip_exponent") is a.strip_exponent
+        e0 = cx.ghost.get("entry")
+        d["loop-reached"] = e0 is not None
+        if e0 is not None:
+            b, sep = cx.env["boundaries"], cx.env["separations"]
+            g = cx.fields(tn)["g_ext"]
+            d["final bookkeeping == extent of the returned network"] = And(*[b[k] == g[k] for k in DIRS2])
+            d["final separations consistent"] = And(sep["x"] == b["xmax"] - b["xmin"], sep["y"] == b["ymax"] - b["ymin"])
+            d["never over-contracted"] = And(sep["x"] >= Min(e0["sep"]["x"], a.max_separation),
+                                             sep["y"] >= Min(e0["sep"]["y"], a.max_separation))
+        return d
+
+
+@register
+class ContractBoundary(T2Contract):
+    """contract_boundary(max_bond, cutoff=..., ...): max_bond, cutoff, canonize, mode, layer_tags, compress_opts are put into
+    contract_boundary_opts under their own names (extra options kept) and the handler receives them and every other
+    argument unchanged"""
+
+    target = f"{TN2}.contract_boundary"
+    floor = 6
+
+    def cases(self):
+        return [NS(name=f"mode={m},inplace={ip},extra={x}", mode=m, inplace=ip, extra=x)
+                for m in ("mps", "full-bond") for ip in (True, False) for x in ("none", "given")]
+
+    def inputs(self, cx, case):
+        ref = new_tn2d(cx)
+        extra = {} if case.extra == "none" else {"sweep_reverse": cx.Bool("sweep_reverse"), "lazy": cx.Opaque("lazy")}
+        cx.ghost["extra0"] = dict(extra)
+        return dict(self=ref, max_bond=cx.Int("max_bond"), cutoff=cx.Real("cutoff"), canonize=cx.Bool("canonize"), mode=case.mode,
+                    layer_tags=cx.Opaque("layer_tags"), compress_opts=cx.Opaque("compress_opts"), sequence=cx.Opaque("sequence"),
+                    xmin=cx.Int("xmin"), xmax=cx.Int("xmax"), ymin=cx.Int("ymin"), ymax=cx.Int("ymax"),
+                    max_separation=cx.Int("max_separation"), max_unfinished=cx.Int("max_unfinished"), around=cx.Opaque("around"),
+                    strip_exponent=cx.Bool("strip_exponent"), equalize_norms=cx.Opaque("equalize_norms"),
+                    final_contract=cx.Bool("final_contract"), final_contract_opts=cx.Opaque("final_contract_opts"),
+                    progbar=cx.Opaque("progbar"), inplace=case.inplace, contract_boundary_opts=extra)
+
+    def call(self, cx, name, args, kwargs, node):
+        if name == "._contract_interleaved_boundary_sequence" and isinstance(args[0], Ref):
+            kw = dict(kwargs)
+            kw["contract_boundary_opts"] = dict(kw.get("contract_boundary_opts") or {})
+            cx.events.append(("handler", args[0], list(args[1:]), kw))
+            return cx.Opaque("result")
+        return super().call(cx, name, args, kwargs, node)
+
+    THREADED = ("max_bond", "cutoff", "canonize", "mode", "layer_tags", "compress_opts")
+    PASSED = ("sequence", "xmin", "xmax", "ymin", "ymax", "max_separation", "max_unfinished", "around", "strip_exponent",
+              "equalize_norms", "final_contract", "final_contract_opts", "progbar", "inplace")
+
+    def ensures(self, a, r, cx, case):
+        ev = [e for e in cx.events if e[0] == "handler"]
+        d = {"exactly-one-handler-call-on-the-receiver": len(ev) == 1 and ev[0][1] == a.self and not ev[0][2]}
+        if not d["exactly-one-handler-call-on-the-receiver"]:
+            return d
+        kw = ev[0][3]
+        opts = kw["contract_boundary_opts"]
+        for k in self.THREADED:
+            d[f"handler-receives-{k}-unchanged"] = k in opts and opts[k] is a[k]
+        d["extra-options-kept"] = all(k in opts and opts[k] is v for k, v in cx.ghost["extra0"].items())
+        want = set(self.THREADED) | set(cx.ghost["extra0"]) | ({"opposite_envs"} if a.mode == "full-bond" else set())
+        d["no-other-option-invented"] = set(opts) == want
+        for k in self.PASSED:
+            d[f"handler-receives-{k}-unchanged"] = k in kw and kw[k] is a[k]
+        d["returns-the-handler's-result"] = isinstance(r, Opaque) and r.note == "" and str(r.z).startswith("result")
+        return d
+
+
+@register
+class ContractBoundaryFrom(T2Contract):
+    """contract_boundary_from(xrange, yrange, from_which, max_bond, cutoff=..., mode=...): exactly one boundary method is
+    applied, to the working network (the receiver iff inplace), and receives xrange, yrange, from_which, max_bond (all
+    modes), cutoff and compress_opts (all modes but full-bond), canonize / layer_tags / sweep_reverse (mps family) and every
+    extra option unchanged; the working network is returned"""
+
+    target = f"{TN2}.contract_boundary_from"
+    floor = 8
+    MODES = {"mps": "_contract_boundary_core", "full-bond": "_contract_boundary_full_bond",
+             "projector2d": "_contract_boundary_projector", "dm": "_contract_boundary_core_via_1d"}
+
+    def cases(self):
+        return [NS(name=f"mode={m},inplace={ip},extra={x}", mode=m, inplace=ip, extra=x)
+                for m in self.MODES for ip in (True, False) for x in ("none", "given")]
+
+    def inputs(self, cx, case):
+        ref = new_tn2d(cx)
+        extra = {} if case.extra == "none" else {"equalize_norms": cx.Opaque("equalize_norms"), "compress_late": cx.Bool("late")}
+        cx.ghost["extra0"] = dict(extra)
+        return dict(self=ref, xrange=(cx.Int("x0"), cx.Int("x1")), yrange=(cx.Int("y0"), cx.Int("y1")), from_which=cx.Opaque("from"),
+                    max_bond=cx.Int("max_bond"), cutoff=cx.Real("cutoff"), canonize=cx.Bool("canonize"), mode=case.mode,
+                    layer_tags=cx.Opaque("layer_tags"), sweep_reverse=cx.Bool("sweep_reverse"),
+                    compress_opts=cx.Opaque("compress_opts"), inplace=case.inplace, contract_boundary_opts=extra)
+
+    def call(self, cx, name, args, kwargs, node):
+        if name.startswith("._contract_boundary_") and isinstance(args[0], Ref):
+            cx.events.append(("method", name[1:], args[0], list(args[1:]), dict(kwargs)))
+            return None
+        return super().call(cx, name, args, kwargs, node)
+
+    def ensures(self, a, r, cx, case):
+        ev = [e for e in cx.events if e[0] == "method"]
+        d = {"returns-the-working-network": isinstance(r, Ref) and (r == a.self) == bool(a.inplace)}
+        d["exactly-one-boundary-method-by-keyword"] = len(ev) == 1 and not ev[0][3]
+        if not (d["returns-the-working-network"] and d["exactly-one-boundary-method-by-keyword"]):
+            return d
+        _, meth, recv, _, kw = ev[0]
+        d["method-of-the-mode"] = meth == self.MODES[a.mode]
+        d["applied-to-the-working-network"] = recv == r
+        keys = ["xrange", "yrange", "from_which", "max_bond"]
+        if a.mode != "full-bond":
+            keys += ["cutoff", "compress_opts"]
+        if a.mode in ("mps", "dm"):
+            keys += ["canonize", "layer_tags", "sweep_reverse"]
+        for k in keys:
+            d[f"method-receives-{k}-unchanged"] = k in kw and kw[k] is a[k]
+        d["extra-options-kept"] = all(k in kw and kw[k] is v for k, v in cx.ghost["extra0"].items())
+        want = set(keys) | set(cx.ghost["extra0"]) | ({"method"} if a.mode == "dm" else set())
+        d["no-other-option-invented"] = set(kw) == want
+        if a.mode == "dm":
+            d["1d-method-name-handed-on"] = kw.get("method") == a.mode
+        return d
